@@ -7,8 +7,11 @@
 From MIO Require Import Base Gen ResId ResIdProofs Driver DriverProofs.
 Local Open Scope N_scope.
 
-Theorem C03_gen_obligation : layout_ok gen_layout = true /\ READY_TO_WRITE_CONST_TRUE = true.
-Proof. split; vm_compute; reflexivity. Qed.
+(* (third conjunct: the readiness probes of tcp.rs / framed_tcp.rs never close the descriptor they
+   borrow for the keepalive option, on any path -- what "pending() = Ready" means for the model) *)
+Theorem C03_gen_obligation :
+  layout_ok gen_layout = true /\ READY_TO_WRITE_CONST_TRUE = true /\ KEEPALIVE_SOCKET_ALWAYS_FORGOTTEN = true.
+Proof. repeat split; vm_compute; reflexivity. Qed.
 
 (* For EVERY script: any sequence of controller calls and poll events, any answers of the adapter
    (pending status, received chunks, read status, accepted items), any controller calls made by
